@@ -2,9 +2,11 @@
 """Evaluate a seeded change against the checks.
 
   tools/mutant.py import <PROP> <worktree>      copy _mutant/{patch.diff,demo,meta.json} into seeded/<PROP>-<n>/
-  tools/mutant.py run <seeded-dir> [check ...]   apply the patch to /repo, confirm build + pinned tests + demo,
-                                                 run the named checks (default: the property's own, quick), undo.
-Never leaves /repo modified (git checkout + removal of the demo file in a finally block)."""
+  tools/mutant.py run <seeded-dir> [check ...]   apply the patch to a scratch worktree of /repo's HEAD (under /tmp),
+                                                 confirm build + pinned tests + demo both ways, run the named checks
+                                                 (default: the property's own, quick) against that worktree
+                                                 (VERIF_REPO / VERIF_OUT_DIR of ./check), remove the worktree.
+/repo itself is never touched, so evaluations can run side by side and next to a sweep."""
 import json, os, shutil, subprocess, sys, time
 
 ROOT = os.path.dirname(os.path.dirname(os.path.abspath(__file__)))
@@ -15,12 +17,14 @@ def sh(cmd, cwd=None, env=None, timeout=None):
     return p.returncode, p.stdout
 
 def clean_repo(extra):
-    sh(["git", "checkout", "--", "."], cwd=REPO)
-    for f in extra:
-        try:
-            os.remove(os.path.join(REPO, f))
-        except OSError:
-            pass
+    global REPO
+    wt = REPO
+    REPO = "/repo"
+    if wt != "/repo":
+        sh(["git", "-C", "/repo", "worktree", "remove", "--force", wt])
+        shutil.rmtree(wt, ignore_errors=True)
+        shutil.rmtree(wt + ".out", ignore_errors=True)
+        sh(["git", "-C", "/repo", "worktree", "prune"])
 
 def cmd_import(prop, wt):
     src = os.path.join(wt, "_mutant")
@@ -41,10 +45,18 @@ def cmd_run(d, checks):
     meta = json.load(open(os.path.join(d, "meta.json")))
     prop = meta["property"]
     checks = checks or [prop]
-    st, out = sh(["git", "status", "--porcelain"], cwd=REPO)
+    global REPO
+    st, out = sh(["git", "status", "--porcelain"], cwd="/repo")
     if out.strip():
         print("refusing: /repo is not clean:\n" + out)
         sys.exit(2)
+    wt = f"/tmp/mw.{os.getpid()}"
+    rc, out = sh(["git", "-C", "/repo", "worktree", "add", "--detach", wt, "HEAD"])
+    if rc != 0:
+        print("cannot create the worktree:\n" + out)
+        sys.exit(2)
+    REPO = wt
+    cenv = dict(os.environ, VERIF_REPO=wt, VERIF_OUT_DIR=wt + ".out")
     demo_files = []
     result = dict(property=prop, dir=d, checks={})
     try:
@@ -93,7 +105,7 @@ def cmd_run(d, checks):
         for c in checks:
             for tier in ["quick"]:
                 t0 = time.time()
-                rc, out = sh([os.path.join(ROOT, "check"), c, tier], cwd=ROOT, timeout=3600)
+                rc, out = sh([os.path.join(ROOT, "check"), c, tier], cwd=ROOT, env=cenv, timeout=3600)
                 lines = [l for l in out.splitlines() if l.startswith("VIOLATION") or l.startswith("  key=")]
                 result["checks"][f"{c}:{tier}"] = dict(exit=rc, wall=round(time.time() - t0, 1), violation_lines=lines[:6])
                 print(f"{c} {tier}: exit {rc}", *lines[:4], sep="\n   ")
